@@ -380,6 +380,7 @@ func run(r *core.Run) {
 		"a case is non-trivial when at least one ring with at least one key is selected; distinct by the op line. " +
 		"v1 stream: a real v1 key store with two clients (storage key pair, symmetric, HMAC keys, 0-2 rotations each) and a poison pair; export by id of every kind and export of everything, import into a fresh store, compare through the read API; bundle scan; sampled single-byte modifications of bundle and access key"
 	runV1(r) // v1 key store first: its regression corpus (repo-patches/04) runs on every run
+	runV1Model(r)
 	rd := r.Rand.Fork()
 	n := r.N(250, 6000)
 	tamperBudget := r.N(6, 60)
